@@ -61,7 +61,10 @@ class AdSpec:
 
 def thr_table(rate, m):
     """thr[L] = int(L * rate), the very double product the code computes"""
-    return [int(L * rate) for L in range(m + 1)]
+    tab = [int(L * rate) for L in range(m + 1)]
+    # hypothesis of C01_errors_achieved / C01_threshold_tables: non-negative and non-decreasing
+    assert all(x >= 0 for x in tab) and all(a <= b for a, b in zip(tab, tab[1:])), ("threshold table not monotone", rate, m)
+    return tab
 
 
 def model_line_matchto(ad_obj, spec, read):
